@@ -53,6 +53,9 @@ def check(run):
     R.rule('C06.route', 'how a frame payload is read (validated as text or raw) depends only on per-message state that '
                         'control frames cannot change; compressed payloads are never UTF-8 validated before inflation', 6)
     parse_ext(R)
+    from . import C10 as _C10
+    with R.as_rule('C06.parse'):
+        _C10.headers(R)          # the parameters reach parse_extension however the header is folded, cased or repeated
     from . import C05
     with R.as_rule('C06.route'):
         C05.route(R)
